@@ -120,6 +120,10 @@ EXTRA = [
     'int a[] = { [({1;})] = 1, [(({2;}))] = 2 };',
     'int y[2] = { ({4;}), 1 };',
     'int f(int x){ switch (x) { case ({1;}): ; } do ; while (({1;})); switch (({1;})) ; ({1;}); }',
+    # unnamed parameters whose first specifier is a tag specifier / qualifier / typedef name
+    "struct S; void f(struct S, enum E *, union U [4]);",
+    "typedef int T; void g(const struct S *, T, T *, volatile T [2], struct { int m; } *);",
+    "void h(enum { A, B } , int (*)(struct S, union U *));",
     # pseudo-identifiers: the '*' of an unspecified array size, offsetof
     "void f(int a[*], int [*]);",
     "void g(double v[const *], long w[*][*]);",
